@@ -106,6 +106,22 @@ def _cases(rnd, n):
             B2, d = S.mutate(rnd, B)
             if B2 is not None and S.no_dangling(A, B2):
                 B = B2
+        if rnd.random() < 0.3:          # generated columns (same column in A and B, nullability / explicitness may differ)
+            import copy
+            A, B = copy.deepcopy(A), copy.deepcopy(B)
+            tb = {t["name"]: t for t in B}
+            for t in A:
+                if rnd.random() < 0.6:
+                    n = max([c[0] for c in t["cols"]] + [c[0] for c in tb.get(t["name"], {"cols": []})["cols"]]) + 1
+                    nl = rnd.random() < 0.6
+                    col = [n, 0, [], nl, False, list(rnd.choice(S.COMPUTED)), not (nl and rnd.random() < 0.5)]
+                    t["cols"].append(col)
+                    if t["name"] in tb:
+                        c2 = list(col)
+                        if rnd.random() < 0.5:
+                            c2[3], c2[6] = not c2[3], (True if c2[3] else rnd.random() < 0.5)
+                            if not c2[6]: c2[3] = True
+                        tb[t["name"]]["cols"].append(c2)
         if rnd.random() < 0.5:          # some foreign keys are declared without a name (reflected with name None on SQLite)
             import copy
             A, B = copy.deepcopy(A), copy.deepcopy(B)
